@@ -4,6 +4,10 @@ import json, os
 ROOT = os.path.dirname(os.path.dirname(os.path.abspath(__file__)))
 TRUST = "TLC 1.8 and the CommunityModules Json/IOUtils; the Rust harness (vh) that drives the public API of /repo's crates; rustc/cargo"
 CHECKS = {
+ "C19": ("DESIGN.md section 6 C19",
+         "ScriptCmd.tla: the wrapper protocol of script-implemented commands as a state machine (publish, body steps incl. nested script commands and errors at any point, cleanup) model-checked for NoTrace, plus the TLA+-defined enumeration of invocation cases (20 commands x 56 argument shapes by kind x 5 calling contexts); every case is run on the real SDK in a fresh directory comparing the variable map and the handle-table size before and after; random sessions on a persistent context are validated by TLC against the R-level postcondition.",
+         "exhaustive over the case enumeration; sampled sessions; wget excluded; join_path's known hang skipped",
+         "TLA+ spec + TLC exhaustive; spec->impl replay; impl->spec trace validation"),
  "C12": ("DESIGN.md section 6 C12",
          "Handles.tla (handle id -> vector / map / set; one Eff arm per command; released / never-issued / wrong-kind handles yield false and change nothing) - complete reachable state graph under size bounds with invariants; per-transition replay on the real SDK in which every collection ever created is re-read through the public commands after every step and the whole table is compared, with a real<->abstract handle bijection checked for injectivity; random long histories validated step by step by TLC.",
          "complete state graph over a small universe (quick replays a rotating tenth of the transitions of every state); sampled histories beyond",
